@@ -935,13 +935,33 @@ clientInterpretRequestHeaders(ClientHttpRequest * http)
     if (req_hdr->has(Http::HdrType::VIA)) {
         String s = req_hdr->getList(Http::HdrType::VIA);
         /*
-         * ThisCache cannot be a member of Via header, "1.1 ThisCache" can.
-         * Note ThisCache2 has a space prepended to the hostname so we don't
-         * accidentally match super-domains.
+         * RFC 9110 section 7.6.3:
+         *   Via = #( received-protocol RWS received-by [ RWS comment ] )
+         * We are in a forwarding loop if some received-by is our own name.
+         * Host names are case-insensitive and other recipients may have
+         * removed our comment, so compare just that element, not the
+         * "name (product/version)" string we append ourselves.
          */
-
-        if (strListIsSubstr(&s, ThisCache2, ',')) {
-            request->flags.loopDetected = true;
+        const char *myName = uniqueHostname();
+        const size_t myNameLen = strlen(myName);
+        const char *pos = nullptr;
+        const char *item = nullptr;
+        int ilen = 0;
+        while (strListGetItem(&s, ',', &item, &ilen, &pos)) {
+            const char *p = item;
+            const char * const end = item + ilen;
+            while (p < end && !xisspace(*p)) // received-protocol
+                ++p;
+            while (p < end && xisspace(*p))
+                ++p;
+            const char * const receivedBy = p;
+            while (p < end && !xisspace(*p) && *p != '(')
+                ++p;
+            if (static_cast<size_t>(p - receivedBy) == myNameLen &&
+                    strncasecmp(receivedBy, myName, myNameLen) == 0) {
+                request->flags.loopDetected = true;
+                break;
+            }
         }
 
 #if USE_FORW_VIA_DB
